@@ -250,7 +250,16 @@ def run_sequence(events, cb_raises=False, oracle=True, only_last=False):
                 break
             before = (drv.n_cb, drv.n_getref, drv.n_watch, drv.clock.n_later)
             was_active = bool(R._active)
-            outs = drv.do(ev)
+            try:
+                outs = drv.do(ev)
+            except Exception as e:       # startConnecting/reset/stopConnecting or a callback of the Reconnector raised
+                import traceback
+                tb = traceback.format_exc()
+                viol = viol or Violation("oracle/exception-in-reconnector", "event %d %r raised %s: %s"
+                                         % (i, ev, type(e).__name__, tb[-500:]))
+                snap = drv.snapshot()
+                obs.append((flags_of(snap), [OUT[o[0]] for o in drv.log], snap["delay"], snap["timer"], []))
+                return obs, viol, len(events)
             snap = drv.snapshot()
             if not only_last or i == len(events) - 1:
                 obs.append((flags_of(snap), [OUT[o[0]] for o in outs], snap["delay"], snap["timer"],
@@ -467,6 +476,10 @@ def real_tub_scenarios():
             ok = not r._active and not mine and not cbs
             out.append(("tub-stop-silences", "oracle/timer-after-stop", ok,
                         "Tub.stopService: _active %r, reconnector timers pending %d" % (r._active, len(mine))))
+    except Exception as e:
+        import traceback
+        out.append(("scenario-raised-after-%s" % (out[-1][0] if out else "nothing"), "oracle/exception-in-reconnector", False,
+                    "%s: %s" % (type(e).__name__, traceback.format_exc()[-700:])))
     finally:
         rc.random = saved
         E.reset_clock()
